@@ -123,6 +123,7 @@ func sloppyLen(m dsl.Matcher) {
 //doc:after   *x, *y = *y, *x
 func valSwap(m dsl.Matcher) {
 	m.Match(`$tmp := $y; $y = $x; $x = $tmp`).
+		Where(m["x"].Pure && m["y"].Pure).
 		Report("can re-write as `$y, $x = $x, $y`")
 }
 
